@@ -29,6 +29,7 @@ CONSTANTS W,            \* workers 0..W-1
           ConnErrIsFatal,       \* FALSE (NEG) aborted/reset/refused treated like EMFILE
           WakeSkipsAcceptAll,   \* FALSE (NEG) WorkerAvailable only sets the bit
           PauseKeepsRegistered, \* FALSE (NEG)
+          ResetSeparate,        \* FALSE (NEG) the waker queue is reset in a critical section of its own, after the empty pop
           RejoinPausedNoAvail   \* FALSE (NEG) a replacement handle that arrives during a pause is stored but not marked available
 
 Workers   == 0..(W - 1)
@@ -277,12 +278,24 @@ ABatch ==
                  oldInprog, oldCounter, cmdq, served, closed, dispatchLog, rrWindow, everFaulted,
                  pauseEffective, fatalSeen>>
 
+\* NEG ResetSeparate only: WakerQueue::reset replaces the queue's storage - taken under a second guard it throws away
+\* whatever was pushed since the empty pop
+AReset ==
+  /\ apc = "reset"
+  /\ wq' = <<>> /\ apc' = "batch"
+  /\ act' = A("AReset")
+  /\ UNCH_ENV
+  /\ UNCHANGED <<backlog, registered, edge, pathOk, errq, lstTimer, timeoutSet, paused, running, handles,
+                 next, avail, batch, ret, cur, tokLeft, inHand, forced, turns, wakerPending, chan, chanOpen, counter,
+                 inprog, alive, oldInprog, oldCounter, cmdq, served, closed, dispatchLog, rrWindow, everFaulted,
+                 pauseEffective, fatalSeen>>
+
 \* one pop of the waker queue (under its mutex) and the accept-thread-private reaction to it
 APop ==
   /\ apc = "pop"
   /\ IF wq = <<>>
-       THEN \* drained: reset the queue, back to the event loop
-            /\ apc' = "batch"
+       THEN \* drained: reset the queue (under the same guard as the empty pop), back to the event loop
+            /\ apc' = (IF ResetSeparate THEN "reset" ELSE "batch")
             /\ UNCHANGED <<wq, avail, handles, paused, running, registered, edge, pathOk, lstTimer, ret, cur,
                            tokLeft, pauseEffective>>
             /\ act' = [A("APop") EXCEPT !.x = "none"]
@@ -468,7 +481,7 @@ ATimeout ==
                  forced, turns, wq, wakerPending, chan, chanOpen, counter, inprog, alive, oldInprog,
                  oldCounter, cmdq, served, closed, dispatchLog, rrWindow, everFaulted, fatalSeen>>
 
-AcceptStep == APoll \/ ABatch \/ APop \/ AAcceptSys \/ AChoose \/ ASend \/ AInc \/ ATimeout
+AcceptStep == APoll \/ ABatch \/ APop \/ AReset \/ AAcceptSys \/ AChoose \/ ASend \/ AInc \/ ATimeout
 EnvStep == \/ \E l \in Listeners : Connect(l) \/ Tick(l) \/ \E k \in {"conn", "fatal"} : InjectErr(l, k)
            \/ \E i \in Workers : WorkerPoll(i) \/ Kill(i)
                                  \/ (\E c \in inprog[i] : Finish(i, c)) \/ (\E c \in oldInprog[i] : TearDown(i, c))
@@ -481,7 +494,7 @@ FairSpec == Spec /\ WF_vars(AcceptStep) /\ WF_vars(Replace) /\ \A i \in Workers 
 (* ------------------------------------------------------------------------------------------- *)
 (* property predicates                                                                           *)
 (* ------------------------------------------------------------------------------------------- *)
-TypeOK == /\ next \in 0..W /\ apc \in {"idle", "batch", "pop", "acc", "one", "send", "inc", "tmo", "panicked", "exited"}
+TypeOK == /\ next \in 0..W /\ apc \in {"idle", "batch", "pop", "acc", "one", "send", "inc", "tmo", "reset", "panicked", "exited"}
           /\ \A i \in Workers : counter[i] \in 0..(MaxConns + 2)
 
 \* ---- C01 ----
